@@ -17,6 +17,9 @@ independent of the key format).  <area>, <phone> and the text of `lit:` are BYTE
   `bulk <cap> <n> <k>` (n ≤ 200000) → `verify=<r> resend=<r>`: fresh instance (mock, CodeLen 4, MaxCount 3, MaxVerifyCount 3, all durations 9223372037 ms),
       n sends to generated pairs (86, 13900000000+i), then pair k verified with its code and hash and re-sent; answered by the closed form
       `bulkClosed` (= the model run, theorem `bulk_spec`), for n ≤ 300 by the model run itself.
+  `race <g> <n> <mock:0|1>` (1 ≤ g ≤ 64, 1 ≤ n ≤ 1000000) → `resend-accepted=0 first-code-verifies=1`: one instance, MinInterval "never", a code sent to one pair, then n
+      re-sends to it while g goroutines send and verify on other phones (child process); the answer is what EVERY sequential interleaving gives
+      (theorem `vc_resend_refused_any_interleaving`).
   `stress <g> <n>` (1 ≤ g ≤ 64, n ≤ 100000) → `stress=ok`: g concurrent callers on distinct phones in a child process must not crash it (not modelled: the
       property speaks of sequences; the answer is constant).  `k` numbers the accepted sends of the script from 1.
 -/
@@ -199,6 +202,12 @@ def step (o : OState) (line : String) : OState × String :=
         let r := verify cfg o.pr o.st a p code h
         ({ o with st := r.1 }, showVerify r.2)
       | _, _ => (o, "bad-op")
+    | _, _ => (o, "bad-op")
+  | ["race", gw, nw, mw] =>
+    match natOf gw.toList, natOf nw.toList with
+    | some g, some n =>
+      if g < 1 || g > 64 || n < 1 || n > 1000000 || !(mw == "0" || mw == "1") then (o, "bad-op")
+      else (o, "resend-accepted=0 first-code-verifies=1")
     | _, _ => (o, "bad-op")
   | ["stress", gw, nw] =>
     match natOf gw.toList, natOf nw.toList with
